@@ -74,7 +74,7 @@ static void build_alphabet(void)
         char big[140]; big[0] = 0x15; big[1] = (char)0x80; big[2] = 0x00; memset(big + 3, 'a', 128);
         addtok("s:a*128", big, 131);
     }
-    TK("s:a(len16 nonmin)", "\x15\x01\x00" "a"); TK("s:neg len", "\x14\xff"); TK("s:len5 short", "\x14\x05" "a"); TK("s:a(len32 nonmin)", "\x16\x01\x00\x00\x00" "a");
+    TK("s:a(len16 nonmin)", "\x15\x01\x00" "a"); TK("s:neg len", "\x14\xff"); TK("s:len5 short", "\x14\x05" "a"); TK("s:a(len32 nonmin)", "\x16\x01\x00\x00\x00" "a"); TK("s:len INT32_MIN", "\x16\x00\x00\x00\x80"); TK("x:len INT32_MAX", "\x1a\xff\xff\xff\x7f");
     TK("x:''", "\x18\x00"); TK("x:00", "\x18\x01\x00"); TK("x:(len16 nonmin)", "\x19\x01\x00\x00");
     TK("bad:00", "\x00"); TK("bad:17", "\x17\x00"); TK("bad:1b", "\x1b\x00"); TK("bad:47", "\x47"); TK("bad:ff", "\xff");
     TK("trunc double", "\x46\x00"); TK("trunc i16", "\x11");
